@@ -27,6 +27,7 @@ from ...schema import (
     Schema,
     unwrap_type,
 )
+from ...schema.introspection import TYPE_NAME_INTROSPECTION_FIELD
 from ..visitors import ValidationVisitor
 
 
@@ -300,11 +301,18 @@ def _collect_fields_and_fragments(
         if isinstance(selection, _ast.Field):
             fieldname = selection.name.value
 
-            fielddef = (
-                parent_type.field_map.get(fieldname, None)
-                if isinstance(parent_type, (ObjectType, InterfaceType))
-                else None
-            )
+            if fieldname == TYPE_NAME_INTROSPECTION_FIELD.name and isinstance(
+                parent_type, GraphQLCompositeType
+            ):
+                # ``__typename: String!`` exists on every composite type and
+                # takes part in the response shape check like any field.
+                fielddef = TYPE_NAME_INTROSPECTION_FIELD
+            else:
+                fielddef = (
+                    parent_type.field_map.get(fieldname, None)
+                    if isinstance(parent_type, (ObjectType, InterfaceType))
+                    else None
+                )
 
             response_name = (
                 selection.alias.value
